@@ -87,6 +87,10 @@ class ModelCheck:
         return c
 
     def check_case(self, res, case, klass):
+        if klass == "random" and not self.valid(case):
+            # the generator is meant to construct valid cases only; a rejected one is counted, never run
+            res.count("generated_invalid")
+            return
         r = self.safe_run(case, res)
         if r is None:
             return
